@@ -33,9 +33,13 @@ func (t *TS) String() string       { return fmt.Sprintf("ts@%d", t.E) }
 var _ ec.TipSet = (*TS)(nil)
 
 type Model struct {
-	mu        sync.Mutex
-	ByKey     map[string]*TS
-	Head      *TS
+	mu    sync.Mutex
+	ByKey map[string]*TS
+	// Now and Main, when set, make the head follow a clock: the head is the last tipset of
+	// Main whose timestamp is not after Now()
+	Now  func() time.Time
+	Main []*TS
+	Head *TS
 	Finalized [][]byte
 	Calls     map[string]int
 }
@@ -77,11 +81,27 @@ func (m *Model) AtEpoch(epoch int64) *TS {
 	return m.atEpoch(epoch)
 }
 
+func (m *Model) head() *TS {
+	if m.Now == nil || len(m.Main) == 0 {
+		return m.Head
+	}
+	now := m.Now()
+	h := m.Main[0]
+	for _, ts := range m.Main {
+		if ts.T.After(now) {
+			break
+		}
+		h = ts
+	}
+	return h
+}
+
 func (m *Model) atEpoch(epoch int64) *TS {
-	if m.Head == nil || epoch > m.Head.E {
+	head := m.head()
+	if head == nil || epoch > head.E {
 		return nil
 	}
-	cur := m.Head
+	cur := head
 	for cur != nil && cur.E > epoch {
 		cur = cur.Parent
 	}
@@ -103,10 +123,11 @@ func (m *Model) GetHead(context.Context) (ec.TipSet, error) {
 	m.mu.Lock()
 	defer m.mu.Unlock()
 	m.Calls["GetHead"]++
-	if m.Head == nil {
+	h := m.head()
+	if h == nil {
 		return nil, errors.New("no head")
 	}
-	return m.Head, nil
+	return h, nil
 }
 
 func (m *Model) GetParent(_ context.Context, t ec.TipSet) (ec.TipSet, error) {
